@@ -695,7 +695,21 @@ static void do_close (void)
 	ev_int ("closedesc", H->route == R_FDK ? 0 : 1) ;
 	ev_str ("route", H->route == R_VIO ? "vio" : H->route == R_FD ? "fd" : H->route == R_FDK ? "fdk" : H->route == R_PATH ? "path" : H->route == R_EMB ? "emb" : "pipe") ;
 	ev_int ("flen", mf->len) ;
-	{	int d [4] ; digest4 (mf->data, mf->len, d) ; fprintf (evf, ",\"dig\":[%d,%d,%d,%d]", d [0], d [1], d [2], d [3]) ; }
+	{	int d [4] ; digest4 (mf->data, mf->len, d) ;
+		if (H->route == R_PATH && H->mode != SFM_READ)
+		{	/* a resource fork next to the file (SD2) is part of what was written : folded into the digest, the 32 bytes
+			** that hold the file's own name left out */
+			char rp [300] ; path_name (H->fid, rp, sizeof (rp), "._") ;
+			int rfd = open (rp, O_RDONLY) ;
+			if (rfd >= 0)
+			{	MEMFILE rf ; memset (&rf, 0, sizeof (rf)) ; slurp_fd (rfd, &rf, 0, 0) ; close (rfd) ;
+				for (long long k = 0x30 ; k < 0x50 && k < rf.len ; k++) rf.data [k] = 0 ;
+				int r [4] ; digest4 (rf.data, rf.len, r) ;
+				for (int k = 0 ; k < 4 ; k++) d [k] = (int) (((long long) d [k] * 31 + r [k] + rf.len) % 1000003) ;
+				dfree (rf.data) ;
+				}
+			}
+		fprintf (evf, ",\"dig\":[%d,%d,%d,%d]", d [0], d [1], d [2], d [3]) ; }
 	ev_ledger () ;
 	ev_end () ;
 }
